@@ -42,7 +42,7 @@ static std::string opname(const Op& o) {
   switch (o.kind) {
     case 'E': return std::string("Ensure/Prepare(") + s[o.sel] + ")";
     case 'B': return "byte";
-    case 'R': return "range(w" + std::to_string(o.sel) + "x" + std::to_string(o.cnt) + ")";
+    case 'R': return (o.sel ? "range(w" + std::to_string(o.sel) : std::string("range(bool")) + "x" + std::to_string(o.cnt) + ")";
     case 'S': return std::string("Skip(") + s[o.sel] + (o.val ? ",0x5a)" : ")");
     default: return std::string("Padding") + (o.val ? "(0x5a)" : "()");
   }
@@ -54,6 +54,9 @@ static std::vector<Op> alphabet() {
   a.push_back({'B', 0, 0, 0});
   for (int w : {1, 2, 4, 8})
     for (int c : {0, 1, 2, 3}) a.push_back({'R', w, c, 0});
+  // width 0 = bool elements: the source bytes are not 0/1 - what the bytes MEAN is the decoder's business, the bounded
+  // wrapper counts what the wrapped reader consumed
+  for (int c : {1, 3}) a.push_back({'R', 0, c, 0});
   for (int s = 0; s <= 10; s++) a.push_back({'S', s, 0, 0});
   a.push_back({'S', 1, 0, 0x5a});
   a.push_back({'S', 4, 0, 0x5a});
@@ -111,7 +114,7 @@ static Step real_read(nop::BoundedReader<ProbeReader>& br, const Op& o) {
     case 'E': s.err = ecode(br.Ensure(resolve(o.sel, rem))); break;
     case 'B': { uint8_t b = 0; s.err = ecode(br.Read(&b)); s.data = {b}; break; }
     case 'R':
-      s.err = o.sel == 1 ? do_range_read<uint8_t>(br, o.cnt, &s.data) : o.sel == 2 ? do_range_read<uint16_t>(br, o.cnt, &s.data)
+      s.err = o.sel == 0 ? do_range_read<bool>(br, o.cnt, &s.data) : o.sel == 1 ? do_range_read<uint8_t>(br, o.cnt, &s.data) : o.sel == 2 ? do_range_read<uint16_t>(br, o.cnt, &s.data)
               : o.sel == 4 ? do_range_read<uint32_t>(br, o.cnt, &s.data) : do_range_read<uint64_t>(br, o.cnt, &s.data);
       break;
     case 'S': s.err = ecode(br.Skip(resolve(o.sel, rem))); break;
@@ -137,7 +140,7 @@ static Step model_read(RModel& m, const Op& o) {
       break;
     }
     case 'R':
-      s.err = o.sel == 1 ? do_range_read_model<uint8_t>(m, o.cnt, &s.data) : o.sel == 2 ? do_range_read_model<uint16_t>(m, o.cnt, &s.data)
+      s.err = o.sel == 0 ? do_range_read_model<bool>(m, o.cnt, &s.data) : o.sel == 1 ? do_range_read_model<uint8_t>(m, o.cnt, &s.data) : o.sel == 2 ? do_range_read_model<uint16_t>(m, o.cnt, &s.data)
               : o.sel == 4 ? do_range_read_model<uint32_t>(m, o.cnt, &s.data) : do_range_read_model<uint64_t>(m, o.cnt, &s.data);
       break;
     case 'S': {
@@ -254,7 +257,7 @@ static int real_write(nop::BoundedWriter<ProbeWriter>& bw, const Op& o, unsigned
     case 'E': return ecode(bw.Prepare(resolve(o.sel, rem)));
     case 'B': return ecode(bw.Write((uint8_t)(0xa0 + salt)));
     case 'R':
-      return o.sel == 1 ? do_range_write<uint8_t>(bw, o.cnt, salt) : o.sel == 2 ? do_range_write<uint16_t>(bw, o.cnt, salt)
+      return o.sel == 0 ? do_range_write<bool>(bw, o.cnt, salt) : o.sel == 1 ? do_range_write<uint8_t>(bw, o.cnt, salt) : o.sel == 2 ? do_range_write<uint16_t>(bw, o.cnt, salt)
              : o.sel == 4 ? do_range_write<uint32_t>(bw, o.cnt, salt) : do_range_write<uint64_t>(bw, o.cnt, salt);
     case 'S': return o.val ? ecode(bw.Skip(resolve(o.sel, rem), o.val)) : ecode(bw.Skip(resolve(o.sel, rem)));
     default: return o.val ? ecode(bw.WritePadding(o.val)) : ecode(bw.WritePadding());
@@ -276,7 +279,7 @@ static int model_write(WModel& m, const Op& o, unsigned salt) {
       return e;
     }
     case 'R':
-      return o.sel == 1 ? do_range_write_model<uint8_t>(m, o.cnt, salt) : o.sel == 2 ? do_range_write_model<uint16_t>(m, o.cnt, salt)
+      return o.sel == 0 ? do_range_write_model<bool>(m, o.cnt, salt) : o.sel == 1 ? do_range_write_model<uint8_t>(m, o.cnt, salt) : o.sel == 2 ? do_range_write_model<uint16_t>(m, o.cnt, salt)
              : o.sel == 4 ? do_range_write_model<uint32_t>(m, o.cnt, salt) : do_range_write_model<uint64_t>(m, o.cnt, salt);
     case 'S': {
       uint64_t n = resolve(o.sel, rem);
